@@ -303,7 +303,13 @@ pub struct Sub {
 
 impl Sub {
     pub fn cases(&self, tier: Tier) -> u64 {
-        tier.pick(self.quick_cases, self.thorough_cases)
+        let n = tier.pick(self.quick_cases, self.thorough_cases);
+        // Development aid (never set by the registered commands): run a percentage of the cases, e.g. to measure the
+        // generator's label distribution of the thorough tier quickly.
+        match std::env::var("EBV_DEV_SCALE_PCT").ok().and_then(|v| v.parse::<u64>().ok()) {
+            Some(pct) => (n * pct / 100).max(16),
+            None => n,
+        }
     }
 }
 
